@@ -120,8 +120,8 @@ def _wait_cls(p, ops):
 
 
 def gen_cases(rng, tier):
-    n_wait = {"quick": 850, "thorough": 8000, "search": 1200}[tier]
-    n_procs = {"quick": 200, "thorough": 1500, "search": 250}[tier]
+    n_wait = {"quick": 520, "thorough": 8000, "search": 1200}[tier]
+    n_procs = {"quick": 130, "thorough": 1500, "search": 250}[tier]
     perm_max = {"quick": 3, "thorough": 4, "search": 3}[tier]
     cases = []
     # exhaustive status decoding
@@ -158,6 +158,13 @@ def gen_cases(rng, tier):
                              "eintr": [[i, q(dly)] for i in idxs]}
                         cases.append({"kind": "wait", "cls": "block-eintr-" + kind, "proc": p, "start": q(0),
                                       "ops": [["wait", None], ["wait", q(0)]]})
+    # NaN fails `timeout >= 0` (ValueError, like a negative number); -0.0 is a valid zero timeout
+    if tier != "search":
+        for kind in ("child", "nonchild"):
+            for ex in (F(-1), F(1, 100), None):
+                p = {"pid": 4242, "kind": kind, "exit": None if ex is None else q(ex), "status": ["code", 0], "eintr": []}
+                cases.append({"kind": "wait", "cls": "wait-nan-" + kind, "proc": p, "start": q(0),
+                              "ops": [["wait", "nan"], ["wait", "-0.0"], ["advance", q(F(1, 50))], ["wait", "-0.0"], ["wait", "nan"]]})
     # the cache across other public calls: wait -> value, <call>, wait again (same value, no kernel call)
     if tier != "search":
         for kind, st in (("child", ["code", 7]), ("child", ["sig", 9, False]), ("nonchild", ["code", 0]), ("never", ["code", 0])):
@@ -212,24 +219,27 @@ def gen_cases(rng, tier):
             for first in (["poll"], ["communicate"], ["exit"], ["wait", None], ["wait", q(0)], ["wait", q(F(1, 100))]):
                 for T in (F(-1), F(3, 1000)):
                     for reuse in (False, True):
-                        ops = [first]
+                        neg = [q(F(-1)), q(F(-1, 1000)), "nan"][len(cases) % 3]
+                        ops = [["wait", neg], first]
                         if T > 0 and first[0] in ("poll", "wait") and first != ["wait", None]:
                             # still running: nothing collected yet; let it end, then collect the same way
                             ops += [["advance", q(F(1, 100))], first]
-                        ops += [["wait", q(0)]]
+                        ops += [["wait", neg], ["wait", "-0.0"], ["wait", q(0)]]
                         if reuse:
                             ops += [["reuse"]]
-                        ops += [["call", "is_running"], ["wait", q(F(1, 20))], ["poll"], ["wait", None], ["wait", q(0)]]
+                        ops += [["call", "is_running"], ["wait", q(F(1, 20))], ["wait", q(F(-1))], ["poll"], ["wait", None],
+                                ["wait", "nan"], ["wait", q(0)], ["wait", q(F(-1, 1000))]]
                         p = {"pid": 4242, "kind": "child", "exit": q(T), "status": st, "eintr": []}
                         cases.append({"kind": "popen", "cls": "popen-%s%s" % (first[0], "-reuse" if reuse else ""),
                                       "proc": p, "start": q(0), "ops": ops})
-    for _ in range({"quick": 120, "thorough": 1500, "search": 150}[tier]):
+    for _ in range({"quick": 70, "thorough": 1500, "search": 150}[tier]):
         T = rng.choice([F(-1), F(0), F(3, 1000), F(1, 20), F(1, 2)])
         ops, collected_possible = [], False
         for _ in range(rng.choice([3, 4, 5, 6, 8])):
             r = rng.random()
             if r < 0.4:
-                ops.append(["wait", rng.choice([None, q(0), q(F(1, 1000)), q(F(1, 100)), q(F(1, 20)), q(F(1))])])
+                ops.append(["wait", rng.choice([None, q(0), q(F(1, 1000)), q(F(1, 100)), q(F(1, 20)), q(F(1)),
+                                                q(F(-1)), q(F(-1, 1000)), "nan", "-0.0"])])
             elif r < 0.55:
                 ops.append(["poll"])
             elif r < 0.65:
@@ -325,6 +335,8 @@ def gq(v):
 
 
 def gopt(v):
+    if v in ("nan", "-0.0"):
+        v = q(VK.tmq(v))     # NaN fails `timeout >= 0` like a negative number; -0.0 is zero
     return "None" if v is None else "(Some %s)" % gq(v)
 
 
@@ -504,7 +516,7 @@ def impl_run(case, coq, env):
 
 
 MANIFEST = {
-    "text": "27 theorems (Coq, exact rational virtual time, for every exit instant, timeout, process kind, exit status and EINTR placement incl. a blocking "
+    "text": "29 theorems (Coq, exact rational virtual time, for every exit instant, timeout, process kind, exit status and EINTR placement incl. a blocking "
             "waitpid interrupted at any instant): status decoding; a returned status/None is never early; TimeoutExpired(timeout, pid) only at or after the "
             "deadline, less than 40 ms late, and -- on EINTR-free schedules -- with the process alive (EINTR case refuted with a witness: known finding); "
             "k-th sleep = min(2^k/10000, 1/25), timeout=0 never sleeps, negative timeout -> ValueError; TERMINATION: with a timeout ceil(25*timeout)+12 "
@@ -512,7 +524,8 @@ MANIFEST = {
             "len(procs)+ceil(timeout)+1 rounds; the cached value is returned without a kernel call; wait_procs partitions its input, sets returncode and "
             "calls the callback exactly once per gone process and returns before timeout + 40 ms for every iteration order; POPEN (psutil.Popen wrapping subprocess.Popen; state = "
             "subprocess-side returncode + psutil-side cache): once a status has been collected by either side, 0 included, wait() returns it at once for "
-            "every kernel and timeout, along every later history, for every order of reaping (poll/communicate/__exit__ first, or psutil's wait first); "
+            "every kernel and timeout, along every later history, for every order of reaping (poll/communicate/__exit__ first, or psutil's wait first), and a negative timeout raises ValueError in every state "
+            "(the pre-4baf627 order is kept as a legacy variant with a refuted theorem); "
             "ORACLES: the boolean oracles "
             "spec_wait / spec_procs that the harness applies to the implementation are theorems of the model's runs. The model is tied to the code by "
             "running the real psutil over a virtual kernel/clock on placements of the exit instant on and around every polling instant and the deadline "
